@@ -28,6 +28,7 @@ RULE = ("A source tree (float with unit, int, bool, str, float array, a nested n
         "change, or a slice, or an import with constraints. Distinct = distinct case JSON.")
 ASSUMPTIONS = [
     "remote sources are immutable inside one parse: source modifications are generated for local/base sources only",
+    "before every remote case the same path is sourced once with other content (a file may change between two parses)",
     "length units only (m, cm, km, mm) so that every unit change is a same-dimension conversion",
     "numeric comparison with relative tolerance 1e-9",
 ]
@@ -426,6 +427,14 @@ def _check(case, v, tmp):
                 env = p.parse()
         else:
             path = os.path.join(tmp, "remote.dip")
+            # the same path held other content when an earlier parse of this process sourced it under the same name
+            other = dict(case["tree"], len=[case["tree"]["len"][0] + 1.0, "km"], cnt=case["tree"]["cnt"] + 7,
+                         name="stale", flag=not case["tree"]["flag"])
+            with open(path, "w") as f:
+                f.write(source_text(other) + "\n")
+            with DIP(name=f"c17_{next(_uid)}") as pp:
+                pp.add_string(f"$source s = {path}\nold float = {{s?src.len}}\nbag {{s?src.*}}")
+                pp.parse().data()
             with open(path, "w") as f:
                 f.write(src + "\n")
             text = f"# remote.dip:\n{src}\n# ---- main ----\n$source s = {path}\n{body}"
